@@ -21,12 +21,13 @@ RULE = ("seeded label vectors (n<=40, 1-5 known classes, 0-50% unknown labels at
         "positions, singleton/unbalanced classes, negative labels other than -1) x "
         "positive_negative_pairs (n_constraints up to several times the number of distinct pairs, "
         "same_length), chunks (feasible and infeasible), generate_knntriplets (continuous and "
-        "integer-grid points with duplicates, k 1..6); randomness through a recording RandomState "
-        "or an integer seed; each call repeated immediately / after ambient perturbation / "
+        "integer-grid points with duplicates, k 1..6); randomness through a recording RandomState, "
+        "an integer seed or a scripted draw program (constant / short cycle / three-value support); each call repeated immediately / after ambient perturbation / "
         "(rationed) in a fresh interpreter with another hash seed; non-trivial = >=1 call inside the "
         "property's domain checked; distinct = distinct (kind, parameters, label-layout) signatures")
 REAL_VS_STUB = dict(real=["metric_learn.constraints", "sklearn NearestNeighbors", "numpy RandomState (MT19937)"],
                     stub=["recording RandomState subclass handed over as random_state",
+                          "scripted RandomState (simulator-chosen integer draws)",
                           "ambient numpy/python RNG state", "fresh interpreter + PYTHONHASHSEED"])
 ASSUMPTIONS = ["no draw order is prescribed: only soundness predicates and reproducibility"]
 
@@ -75,7 +76,12 @@ def gen_plan(seed, tier):
   calls = []
   for _ in range(r.randint(1, 4)):
     k = r.choice(["pairs", "pairs", "chunks", "knn"])
-    rs = dict(kind=r.choice(["int", "int", "sim"]), seed=r.randrange(2**31 - 1))
+    rs = dict(kind=r.choice(["int", "int", "int", "sim", "sim", "scripted"]), seed=r.randrange(2**31 - 1))
+    if rs["kind"] == "scripted":
+      # a draw program chosen by the simulator: degenerate but legal integer
+      # streams (one value for ever, a short cycle, a support of three values);
+      # soundness must hold for whatever the stream delivers
+      rs["script"] = r.choice(["const", "cycle", "few"])
     if k == "pairs":
       calls.append(dict(kind="pairs", n_constraints=r.choice([1, 2, 3, 5, 10, 30, 100, 400]),
                         same_length=r.random() < 0.4, rs=rs))
@@ -93,6 +99,8 @@ def gen_plan(seed, tier):
 def _rs(spec):
   if spec["kind"] == "int":
     return int(spec["seed"])
+  if spec["kind"] == "scripted":
+    return world.ScriptedRandomState(int(spec["seed"]), spec["script"])
   return world.SimRandomState(int(spec["seed"]))
 
 
@@ -372,7 +380,9 @@ def run_plan(plan):
       sig.pop("points", None)
       shape.append(repr(sorted(sig.items())))
       # reproducibility: immediately, and after an ambient perturbation
-      if call["kind"] == "knn" or call["rs"]["kind"] in ("int", "sim"):
+      if call["kind"] != "knn":
+        cov["draw_program_" + (call["rs"].get("script") or call["rs"]["kind"])] += 1
+      if call["kind"] == "knn" or call["rs"]["kind"] in ("int", "sim", "scripted"):
         o2, v2, _, _ = do_call(y, call)
         world.perturb_ambient(h64("c07b", plan["run_seed"], i) % (2**31), 4)
         o3, v3, _, _ = do_call(y, call)
@@ -437,7 +447,7 @@ def shrink_moves(plan, violation):
       p = copy.deepcopy(plan)
       p["calls"][i]["same_length"] = False
       yield p
-    if c.get("rs", {}).get("kind") == "sim":
+    if c.get("rs", {}).get("kind") in ("sim", "scripted"):
       p = copy.deepcopy(plan)
       p["calls"][i]["rs"]["kind"] = "int"
       yield p
